@@ -90,7 +90,7 @@ def evalLine (toks : List String) : String :=
   | ["bt", name, sa] =>
     let neg := name == "BF" || name == "BFS"
     let short := name == "BTS" || name == "BFS"
-    s!"{b2s (cBT neg (if short then .i32 else .i64) (w64 sa))} {b2s (docBT neg short (w64 sa))}"
+    s!"{b2s (cBT neg (if short then .i32 else .i64) (w64 sa))} {b2s (Mir2C.docBT neg short (w64 sa))}"
   | ["ov", o, s, sa, sb] =>
     let short := s == "1"
     let x := w64 sa; let y := w64 sb
